@@ -952,6 +952,66 @@ def oracle_joinrows(line, out):
     return None
 
 
+def valid_union_pairs(p1, p2, rev):
+    u = sorted(set(p1) | set(p2))
+    return u if valid_pairs(u, rev) else None
+
+
+def parts_interleave(segs_a, segs_b):
+    """negation of the hypothesis of the proved union theorem (C08_join_union_partial): some position
+    (paired or not) of the earlier part's first segment is NOT before the first pair of the later
+    part's first segment on both maps.  `segs_*` as returned by parse_segs."""
+    fa = [it for _, items in segs_a[:1] for it in items]
+    fb = [it for _, items in segs_b[:1] for it in items]
+    pa = next((it for it in fa if it[0] == "P"), None)
+    pb = next((it for it in fb if it[0] == "P"), None)
+    if pa is None or pb is None:
+        return False
+    early, late = (fa, pb) if pa[2] < pb[2] else (fb, pa)
+    for it in early:
+        if it[0] == "P" and not (it[4] < late[4] and it[2] < late[2]):
+            return True
+        if it[0] == "R" and not it[2] < late[2]:
+            return True
+        if it[0] == "Q" and not it[2] < late[4]:
+            return True
+    return False
+
+
+def join_union_signature(segs_a, segs_b):
+    """which known mechanism (if any) explains `joined != union although the union is valid`"""
+    # a part keeps aligned positions outside its segments[0] (also: an EMPTY first segment before the real one)
+    if any(any(items for _, items in sg[1:]) for sg in (segs_a, segs_b)):
+        return "join-uses-first-segment-only"
+    if parts_interleave(segs_a, segs_b):
+        return "join-cuts-interleaving-parts"
+    return None
+
+
+def oracle_join_union(line, out):
+    """last clause of C08 on one join: when the union of the parts is a valid matching the joined
+    record is exactly the union"""
+    if out == "None" or out.startswith("ERR"):
+        return None
+    op, kv = kv_of(line)
+    a, pa = parse_row_kv(kv["A"], "~")
+    b, pb = parse_row_kv(kv["B"], "~")
+    j, pj = parse_row_kv(out)
+    u = valid_union_pairs(pa, pb, j["rev"] == "1")
+    if u is not None and sorted(pj) != u:
+        return f"union of the parts is a valid matching ({len(u)} pairs) but the joined record has {len(pj)} pairs"
+    return None
+
+
+def classify_join_union(line, out, model_out, msg):
+    if not msg.startswith("union of the parts"):
+        return None
+    op, kv = kv_of(line)
+    sa = parse_segs(dict(t.split("=", 1) for t in kv["A"].split("~") if "=" in t).get("SEG", ""))
+    sb = parse_segs(dict(t.split("=", 1) for t in kv["B"].split("~") if "=" in t).get("SEG", ""))
+    return join_union_signature(sa, sb)
+
+
 def oracle_resolverows(line, out):
     op, kv = kv_of(line)
     if out.startswith("ERR"):
